@@ -206,6 +206,8 @@ def write_evidence(pid, level, tier, seed, stats, rule, wall, violations, assump
             jsonschema.validate(ev, json.load(f))
     except FileNotFoundError:
         pass
+    except Exception as e:      # e.g. a run that failed at once has no non-trivial passing case: written as it is
+        print("note: evidence does not satisfy the schema (%s)" % str(e).split("\n")[0], file=sys.stderr)
     tmp = os.path.join(EVID_DIR, pid + ".json.tmp")
     with open(tmp, "w") as f:
         json.dump(ev, f, indent=1, sort_keys=True, default=str)
@@ -317,6 +319,9 @@ def main_check(mod, tier, seed, replay=None):
     if flaky:
         stats.extra["flaky_candidates"] = [dict(detail=str(f.get("detail"))[:300]) for f in flaky[:5]]
 
+    if not stats.samples:
+        stats.samples = [{"failing_case": str(d)[:300], "detail": str(t)[:300]} for d, t in violations[:3]] or \
+                        [{"note": "no passing non-trivial case was recorded in this run"}]
     floor = getattr(mod, "NONTRIVIAL_FLOOR", 2)
     wall = time.time() - t0
     write_evidence(pid, mod.LEVEL, tier, seed, stats, mod.RULE, wall, len(violations), mod.ASSUMPTIONS)
